@@ -1,11 +1,11 @@
 (* C03: the LALR(1) theorems for the reference construction itself, without the automaton certificate:
    for every grammar with rule heads / right-hand sides in range and every fuel with which build_loop emptied its
-   work list (ref_done), the lookahead table of the reference is sound; it is exact when FIRST is closed and
-   la_fix stopped on a stable table (the two clauses that are still evaluated, ref_cert_light). *)
+   work list (ref_done), the lookahead table of the reference is sound; it is exact when la_fix stopped on a stable table
+   (FIRST and nullable always reach their fixpoints: FirstFix_proofs.v, CfgFix_proofs.v). *)
 From Coq Require Import List ZArith Bool Arith Lia.
 From TM Require Import Gram.Cfg Gram.Derive Gram.LalrRef Gram.LalrSpec Gram.LalrSpec_proofs Gram.LalrSpec_proofs2
                        Gram.LalrCert Gram.LalrCert_proofs Gram.CfgFix_proofs Gram.LalrDone Gram.LalrLoop_proofs
-                       Gram.LalrFinals_proofs Gram.LalrFix_proofs Gram.LalrTables Gram.LalrTables_proofs.
+                       Gram.LalrFinals_proofs Gram.LalrFix_proofs Gram.FirstFix_proofs Gram.LalrTables Gram.LalrTables_proofs.
 Import ListNotations.
 Local Open Scope Z_scope.
 
@@ -22,10 +22,10 @@ Theorem ref_la_exact g fuel : ref_cert_light g fuel = true ->
   forall q it x, In x (la_get (lalr_la g a fuel) q it) <-> lalr1 g a q it x.
 Proof.
   intros H a. unfold ref_cert_light in H. fold a in H.
-  apply andb_true_iff in H. destruct H as [H Hst]. apply andb_true_iff in H. destruct H as [H Hfc].
+  apply andb_true_iff in H. destruct H as [H Hst].
   apply andb_true_iff in H. destruct H as [Hwf Hd].
   destruct (build_automaton_ok g fuel Hwf Hd) as (H1 & H2 & H3 & H4 & _). fold a in H1, H2, H3, H4.
-  destruct (wf_grammar_range g Hwf) as [Hr _].
+  destruct (wf_grammar_range g Hwf) as [Hr _]. pose proof (first_sets_closed g Hr) as Hfc.
   intros q it x. split.
   - apply lalr_la_sound; auto.
   - apply lalr_la_complete_range; auto.
@@ -38,7 +38,7 @@ Theorem ref_la_covers g fuel : ref_cert_light g fuel = true ->
   exists q, reach a i gamma q /\ In x (la_get (lalr_la g a fuel) q it).
 Proof.
   intros H a i gamma it x Hv. pose proof H as H0. unfold ref_cert_light in H. fold a in H.
-  apply andb_true_iff in H. destruct H as [H _]. apply andb_true_iff in H. destruct H as [H _].
+  apply andb_true_iff in H. destruct H as [H _].
   apply andb_true_iff in H. destruct H as [Hwf Hd].
   destruct (build_automaton_ok g fuel Hwf Hd) as (_ & _ & _ & Hc & Ht). fold a in Hc, Ht.
   assert (Hr : exists q, reach a i gamma q).
@@ -55,13 +55,12 @@ Qed.
 (* the stable-table clause can fail only by lack of fuel (LalrFix_proofs), so: *)
 Theorem ref_la_exact_small g fuel :
   wf_grammar g = true -> ref_done g fuel = true ->
-  first_closed g (nullable_set g) (first_sets g) = true ->
   let a := fst (build_automaton g fuel) in
   (length (lalr_la g a fuel) + la_size (lalr_la g a fuel) < fuel)%nat ->
   forall q it x, In x (la_get (lalr_la g a fuel) q it) <-> lalr1 g a q it x.
 Proof.
-  intros Hwf Hd Hfc a Hsmall. apply ref_la_exact. unfold ref_cert_light. fold a.
-  rewrite Hwf, Hd, Hfc. simpl. apply lalr_la_stable_if_small. exact Hsmall.
+  intros Hwf Hd a Hsmall. apply ref_la_exact. unfold ref_cert_light. fold a.
+  rewrite Hwf, Hd. simpl. apply lalr_la_stable_if_small. exact Hsmall.
 Qed.
 
 (* the lookahead sets shown in the reference's state views, under the light certificate *)
